@@ -162,7 +162,16 @@ impl Model {
 }
 
 /// Stable sort of `0..keys.len()` by key: the permutation a stable sort must produce.
-pub fn stable_perm<K: Ord>(keys: &[K]) -> Vec<usize> {
+pub fn stable_perm<K: Ord + Clone>(keys: &[K]) -> Vec<usize> {
+    if keys.len() > 512 {
+        // long lines: one bucket per distinct key, filled in original order and concatenated in
+        // key order -- just as obviously stable, and linear for the small alphabets used
+        let mut buckets: std::collections::BTreeMap<K, Vec<usize>> = std::collections::BTreeMap::new();
+        for (i, k) in keys.iter().enumerate() {
+            buckets.entry(k.clone()).or_default().push(i);
+        }
+        return buckets.into_values().flatten().collect();
+    }
     let mut idx: Vec<usize> = (0..keys.len()).collect();
     // insertion sort: obviously stable, independent of std's sort implementation
     for i in 1..idx.len() {
